@@ -133,8 +133,11 @@ class NArr:
         return self._get(d[self._norm(i, len(d))], rest)
 
     def skv_getitem(self, ix):
+        if isinstance(ix, list):
+            ix = NArr(list(ix))            # a[[0, 1, 4, 3]]
         if not isinstance(ix, tuple):
             ix = (ix,)
+        ix = tuple(NArr(list(i)) if isinstance(i, list) else i for i in ix)
         # paired integer-array indexing a[I, J]
         arrs = [k for k, i in enumerate(ix) if isinstance(i, NArr)
                 and not all(isinstance(v, bool) for v in _flat(i.data))]
@@ -302,6 +305,26 @@ class NArr:
             return PyFunc(red)
         if name == "dtype":
             return "DTYPE"
+        if name == "reshape":
+            def reshape(a, k, n):
+                shp = a[0] if len(a) == 1 and isinstance(a[0], tuple) else a
+                shp = [int(x) for x in shp]
+                if k.get("order", "C") not in ("C", "c"):
+                    raise Unsupported("non-C reshape")
+                fl = _flat(self.data)
+                if len(shp) == 1 and shp[0] in (-1, len(fl)):
+                    return NArr(fl)
+                if len(shp) == 2:
+                    r, c = shp
+                    if r == -1:
+                        r = len(fl) // c
+                    if c == -1:
+                        c = len(fl) // r
+                    if r * c != len(fl):
+                        raise Raised("ValueError: cannot reshape")
+                    return NArr([fl[i * c:(i + 1) * c] for i in range(r)])
+                raise Unsupported("reshape to rank > 2")
+            return PyFunc(reshape)
         if name == "flatten":
             def flatten(a, k, n):
                 order = a[0] if a else k.get("order", "C")
@@ -351,6 +374,40 @@ def hook(interp, name, args, kwargs, node):
             len(a0.shape) == 1:
         return NArr(sorted(range(len(a0.data)), key=lambda k: (a0.data[k],
                                                                k)))
+    if name == "numpy.hstack" and isinstance(a0, (list, tuple)) and a0 and \
+            all(isinstance(x, NArr) for x in a0):
+        if all(len(x.shape) == 1 for x in a0):
+            return NArr([v for x in a0 for v in x.data])
+        if all(len(x.shape) == 2 for x in a0):
+            nr = a0[0].shape[0]
+            return NArr([[v for x in a0 for v in x.data[r]]
+                         for r in range(nr)])
+        raise Unsupported("hstack of mixed ranks")
+    if name == "numpy.vstack" and isinstance(a0, (list, tuple)) and a0 and \
+            all(isinstance(x, NArr) for x in a0):
+        rows = []
+        for x in a0:
+            rows += [list(x.data)] if len(x.shape) == 1 else \
+                [list(r) for r in x.data]
+        return NArr(rows)
+    if name == "numpy.ascontiguousarray" and isinstance(a0, NArr):
+        return a0
+    if name == "numpy.sort" and isinstance(a0, NArr) and \
+            len(a0.shape) == 2 and int(kwargs.get("axis", -1)) == 0:
+        cols = [sorted(c) for c in zip(*a0.data)]
+        return NArr([list(r) for r in zip(*cols)])
+    if name == "numpy.unique" and isinstance(a0, NArr) and \
+            len(a0.shape) == 2 and int(kwargs.get("axis", -9)) == 1:
+        cols = [tuple(c) for c in zip(*a0.data)]
+        vals = sorted(set(cols))
+        out = [NArr([list(r) for r in zip(*vals)])]
+        if kwargs.get("return_index"):
+            out.append(NArr([cols.index(v) for v in vals]))
+        if kwargs.get("return_inverse"):
+            out.append(NArr([vals.index(c) for c in cols]))
+        if kwargs.get("return_counts"):
+            out.append(NArr([cols.count(v) for v in vals]))
+        return tuple(out) if len(out) > 1 else out[0]
     if name == "numpy.sort" and isinstance(a0, NArr) and len(a0.shape) == 1:
         return NArr(sorted(a0.data))
     if name == "numpy.arange" and all(isinstance(a, (int, Fraction))
